@@ -100,3 +100,41 @@ func verifH_C06_admission() {
 	verifAssert(n.adapter.Sockets(verifNoRooms()).Cardinality() == 0, "no room keeps the id of a socket of a closed connection")
 	verifReach("end")
 }
+
+// C06_join_race: one termination cause races room operations on the same socket from other goroutines (a handler still
+// running calls Join; an operator runs SocketsJoin on the namespace), under all interleavings at synchronisation points.
+// Once everything has finished the socket is in no room, whichever side ran first, and nothing lists it.
+//
+//verif:unwind 16
+//verif:rand concrete
+//verif:preempt 2
+//verif:visops 120
+func verifH_C06_join_race() {
+	w := verifServerWorld("/")
+	n := w.nsp("/")
+	w.conn.connect(&parser.PacketHeader{Type: parser.PacketTypeConnect, Namespace: "/"}, verifNoDecode)
+	verifWaitQuiescent()
+	socks := n.Sockets()
+	verifAssert(len(socks) == 1, "socket connected")
+	s := socks[0].(*serverSocket)
+	sid := s.ID()
+	s.Join("room1")
+	cause := verifChoose(0, 4)
+	viaOperator := verifAnyBool()
+	verifThreads(true)
+	verifGo(func() { verifCause(w, s, cause) })
+	verifGo(func() {
+		if viaOperator {
+			n.SocketsJoin("late")
+		} else {
+			s.Join("late")
+		}
+	})
+	verifWaitQuiescent()
+	verifAssert(len(n.Sockets()) == 0, "the namespace no longer lists the socket")
+	rooms, hasRooms := n.adapter.SocketRooms(sid)
+	verifAssert(!hasRooms || rooms.Cardinality() == 0, "the socket is in no room any more, however a late Join interleaves with the teardown")
+	verifAssert(!verifInRoom(n, sid, "late") && !verifInRoom(n, sid, "room1"), "no room lists the socket")
+	verifAssert(verifHeldLocks() == 0, "no mutex left held")
+	verifReach("end")
+}
